@@ -1,7 +1,9 @@
 (* C05 -- a routed Message reaches exactly the sessions its patterns select, once each.
    Only theorem statements proved by `exact`, their Print Assumptions, and non-vacuity examples. *)
 From Coq Require Import List NArith ZArith Bool.
-From Muscle Require Import Gen.Consts Refl.Base Refl.Tree Refl.Matcher Refl.Traverse Refl.Session Refl.Server Refl.Route.
+From Muscle Require Import Gen.Consts Refl.Base Refl.Tree Refl.Matcher Refl.Traverse Refl.Session Refl.Server Refl.Route
+  Refl.TravBase Refl.TraverseProofs Refl.TraverseTheorems Refl.TraverseExit Refl.TravWitness Refl.RouteProofs Refl.RouteRun
+  Refl.RouteWitness.
 Import ListNotations.
 
 (* The theorems below are about the repaired code: the sources the translator has just read must not contain the
@@ -12,3 +14,129 @@ Theorem code_is_repaired :
   (c_c05_pass_returns_session_depth, c_c05_default_flags_gw_and_nb) = (1, 1)%N /\ r_as_is = r_all_fixed.
 Proof. repeat split; reflexivity. Qed.
 Print Assumptions code_is_repaired.
+
+(* The set of nodes a wildcard traversal (NodePathMatcher::DoTraversal with a callback that goes on, repaired guard)
+   calls back on is duplicate-free and identical to the set obtained by testing every node's path below the start
+   node with PathMatcher::MatchesPath -- for every tree, every set of patterns (any depths, any mixture of clauses
+   taking the hash-lookup or the iteration path), every start node, with and without filters.
+   Premises: the clause laws of C15 (a clause that reports lookup keys matches exactly those names), tree and
+   table well-formedness. *)
+Theorem traversal_eq_bruteforce :
+  forall (M : MatchOps),
+    (forall (c : clause) (ks : list name) (k : name), ckeys c = Some ks -> cmatch c k = true -> In k ks) ->
+    (forall (c : clause) (ks : list name) (k : name), ckeys c = Some ks -> In k ks -> cmatch c k = true) ->
+    forall (t : tree) (m : matcher) (root : path) (use_filters : bool),
+      tree_wf t -> matcher_wf m ->
+      NoDup (map n_path (visits t m root use_filters true)) /\
+      (forall n, In n (visits t m root use_filters true) <-> selected t m root use_filters n).
+Proof. exact @traversal_eq_bruteforce_lemma. Qed.
+Print Assumptions traversal_eq_bruteforce.
+
+(* every table PutPathsFromMessage builds satisfies the table premise *)
+Theorem built_matchers_are_wf : forall (M : MatchOps) (l : list (pat * option qfilter)), matcher_wf (m_of_list l).
+Proof. exact @m_of_list_wf. Qed.
+Print Assumptions built_matchers_are_wf.
+
+(* F12: with the guard as found in the code (it counts clause-count groups, not patterns) the statement fails *)
+Theorem traversal_refuted_with_group_count_guard :
+  exists (t : tree) (m : matcher) (n : node),
+    tree_wf t /\ matcher_wf m /\ In n (visits t m [] true false) /\ matches_path m (n_path n) (Some (n_data n)) = false.
+Proof. exact traversal_refuted_with_group_count_guard_lemma. Qed.
+Print Assumptions traversal_refuted_with_group_count_guard.
+
+(* non-vacuity: the premises of traversal_eq_bruteforce are satisfiable by a non-trivial tree, table and clause laws *)
+Example premises_satisfiable :
+  tree_wf f12_tree /\ matcher_wf f12_matcher /\
+  (forall (c : clause) (ks : list name) (k : name), ckeys c = Some ks -> cmatch c k = true -> In k ks) /\
+  map n_path (visits f12_tree f12_matcher [] true true) = [[jeremy; kate]; [kevin; joe]].
+Proof. split; [exact f12_tree_wf|]. split; [exact f12_matcher_wf|]. split; [exact wkeys_sound | exact f12_fixed_visits]. Qed.
+
+(* A client-to-client Message (what code outside the PR_COMMAND range) handed to MessageReceivedFromGateway of session s
+   is appended EXACTLY ONCE to the outgoing queue of every session that [route_targets] selects and to no other queue,
+   and nothing else changes.  [route_targets] is the statement of the property as a function: with PR_NAME_KEYS, the
+   sessions that own (second path component) at least one node whose full path matches at least one pattern and passes
+   that pattern's filter (PathMatcher::MatchesPath over every node: [gets]); without keys the stored default route if the
+   sender set one, else every session if the sender's gateway-to-neighbours flag is set; the sender itself only with
+   reflect-to-self; [put_inbox] then applies the receiver's neighbours-to-gateway flag.
+   Premises: clause laws (C15), tree well-formedness, distinct session ids, a well-formed default-route table. *)
+Theorem deliver_once :
+  forall (M : MatchOps),
+    (forall (c : clause) (ks : list name) (k : name), ckeys c = Some ks -> cmatch c k = true -> In k ks) ->
+    (forall (c : clause) (ks : list name) (k : name), ckeys c = Some ks -> In k ks -> cmatch c k = true) ->
+    forall (st : rstate) (s : sid) (ss : session) (ri : rinfo) (m : umsg),
+      tree_wf (sv_tree (rs_srv st)) -> NoDup (map s_id (sv_sessions (rs_srv st))) -> matcher_wf (ri_route ri) ->
+      get_session (rs_srv st) s = Some ss -> get_info st s = Some ri -> in_cmd_range (u_what m) = false ->
+      route_msg r_all_fixed st s m
+      = mkRS (rs_srv st)
+             (map (fun x => if route_targets st s ri m (ri_id x)
+                            then put_inbox s (mkD s (u_tag m) (overwrite (u_session m) (s_name ss))) x else x) (rs_info st)).
+Proof. exact @deliver_once_lemma. Qed.
+Print Assumptions deliver_once.
+
+(* the traversal behind it, for any table: one delivery per selected session *)
+Theorem pass_traversal_delivers_once :
+  forall (M : MatchOps),
+    (forall (c : clause) (ks : list name) (k : name), ckeys c = Some ks -> cmatch c k = true -> In k ks) ->
+    (forall (c : clause) (ks : list name) (k : name), ckeys c = Some ks -> In k ks -> cmatch c k = true) ->
+    forall (st : rstate) (s : sid) (self_ok : bool) (d : dlv) (mt : matcher),
+      tree_wf (sv_tree (rs_srv st)) -> matcher_wf mt ->
+      pass_traversal r_all_fixed st s self_ok d mt
+      = map (fun ri => if gets st s self_ok mt (ri_id ri) then put_inbox s d ri else ri) (rs_info st).
+Proof. exact @pass_traversal_once. Qed.
+Print Assumptions pass_traversal_delivers_once.
+
+(* For every event, every state and every setting of the repairs: each outgoing queue afterwards is a queue from before
+   with copies of the event's own Message appended, or a new empty one. *)
+Theorem queues_only_grow :
+  forall (M : MatchOps) (fx : rfixes) (st : rstate) (ev : revent) (ri' : rinfo),
+    In ri' (rs_info (rstep fx st ev)) ->
+    (exists ri, In ri (rs_info st) /\ grown_by (ev_dlv st ev) ri ri') \/ ri_inbox ri' = [].
+Proof. exact @step_appends. Qed.
+Print Assumptions queues_only_grow.
+
+(* FIFO per pair, for every history: a queue at the end is the queue it started from (or an empty one) followed by a
+   stuttering subsequence of the Messages handed in during the history, in the order they were handed in -- so the
+   Messages of one sender reach any one receiver in the order sent.  (With deliver_once the subsequence does not stutter.) *)
+Theorem fifo_per_pair :
+  forall (M : MatchOps) (fx : rfixes) (evs : list revent) (st : rstate) (ri' : rinfo),
+    In ri' (rs_info (rrun fx evs st)) ->
+    exists pre l, ri_inbox ri' = pre ++ l /\
+                  (pre = [] \/ exists ri, In ri (rs_info st) /\ ri_id ri = ri_id ri' /\ pre = ri_inbox ri) /\
+                  stutter_sub l (log fx st evs).
+Proof. exact @fifo_lemma. Qed.
+Print Assumptions fifo_per_pair.
+
+(* the sender-identity field of every Message handed to the routing code names the session it came in on: a string field
+   has that session's id string as its first value, an absent field stays absent (ReplaceString(false, ...)) *)
+Theorem sender_field_true :
+  forall (M : MatchOps) (st : rstate) (ev : revent) (d : dlv),
+    In d (ev_dlv st ev) ->
+    exists s ss m, ev = RCmd s (RMsg m) /\ get_session (rs_srv st) s = Some ss /\ d_from d = s /\ d_tag d = u_tag m /\
+                   d_field d = overwrite (u_session m) (s_name ss) /\
+                   (forall v r, d_field d = SStr (v :: r) -> v = s_name ss) /\
+                   (u_session m = SAbsent -> d_field d = SAbsent).
+Proof. exact @sender_field_lemma. Qed.
+Print Assumptions sender_field_true.
+
+(* F19: in the model of the code as found one Message is queued twice for a session with two matching depth-3 nodes *)
+Theorem deliver_once_refuted_as_found :
+  exists evs : list revent, exists d : dlv,
+    inbox_of (rrun r_as_found evs empty_rstate) 1%N = [d; d] /\ inbox_of (rrun r_all_fixed evs empty_rstate) 1%N = [d].
+Proof. exact deliver_once_refuted_as_found_lemma. Qed.
+Print Assumptions deliver_once_refuted_as_found.
+
+(* F20: in the model of the code as found the default route is ignored (the keyless Message is broadcast) *)
+Theorem default_route_refuted_as_found :
+  exists evs : list revent, exists d : dlv,
+    inbox_of (rrun r_as_found evs empty_rstate) 2%N = [d] /\ inbox_of (rrun r_all_fixed evs empty_rstate) 2%N = [] /\
+    inbox_of (rrun r_all_fixed evs empty_rstate) 1%N = [d].
+Proof. exact default_route_refuted_as_found_lemma. Qed.
+Print Assumptions default_route_refuted_as_found.
+
+(* non-vacuity: a state reached by client commands (three sessions, one of them storing two nodes) satisfies the premises of
+   deliver_once *)
+Example deliver_once_premises_satisfiable :
+  tree_wf (sv_tree (rs_srv setup_state)) /\ NoDup (map s_id (sv_sessions (rs_srv setup_state))) /\
+  length (sv_tree (rs_srv setup_state)) = 6 /\
+  (exists ss ri, get_session (rs_srv setup_state) 0%N = Some ss /\ get_info setup_state 0%N = Some ri /\ matcher_wf (ri_route ri)).
+Proof. exact setup_state_wf. Qed.
